@@ -685,7 +685,7 @@ Section ToksTree.
       destruct (tag_toks_ok _ _ kids Hq Ha K1 K2) as [T1 [T2 [T3 T4]]].
       unfold node_toks_ok. cbn [toks_node]. rewrite toks_kids_fix. split; [exact T1|]. split; [exact T2|].
       intros _. split; assumption.
-    - cbn [wf_node] in HW. unfold node_toks_ok. cbn [toks_node]. split; [constructor; [exact HW | constructor]|].
+    - cbn [wf_node] in HW. unfold node_toks_ok. cbn [toks_node]. split; [constructor; [split; [apply comment_validator_ok; exact (proj1 HW) | exact (proj2 HW)] | constructor]|].
       split; [exact I|]. intros _. split; [reflexivity|]. exists [], (TComment s). split; reflexivity.
     - cbn [wf_node] in HW. destruct HW as [H1 [H2 [H3 [H4 H5]]]]. unfold node_toks_ok. cbn [toks_node].
       assert (Hn : is_name tg = true) by (unfold is_ncname in H1; apply andb_prop in H1; destruct H1; assumption).
